@@ -9,6 +9,8 @@
 mod c02;
 mod c07;
 mod c08;
+mod c13;
+mod c17;
 mod prom;
 mod sched;
 mod expo;
@@ -60,6 +62,8 @@ fn main() {
             c08::run(&cfg, &mut out);
             c08::run_sessions(&cfg, &mut out);
         }
+        "C13" => c13::run(&cfg, &mut out),
+        "C17" => c17::run(&cfg, &mut out),
         other => {
             eprintln!("unknown property {}", other);
             std::process::exit(2);
